@@ -200,7 +200,8 @@ var fixedCircs = map[string]gen.Circ{
 }
 
 // enumSessions are the sessions whose every transcript offset is corrupted in
-// the thorough tier (6 whole-circuit, 4 streaming).
+// the thorough tier (6 whole-circuit, 4 streaming, two input/seed variants of
+// each).
 func enumSessions() []Session {
 	mk := func(mode, circ, prog, x, y string, seed uint64) Session {
 		s := Session{Mode: mode, Prog: prog, X: x, Y: y, OT: "co", Seed: seed}
